@@ -77,7 +77,8 @@ AtomOn(c, kind) ==
          [] kind = "in"   -> InList(Col(c), <<RandLit(c), RandLit(c)>>, RandomElement(BOOLEAN))
          [] kind = "null" -> Un(RandomElement({"isnull", "isnotnull"}), Col(c))
          [] kind = "colcol" -> Bin(RandomElement({"=", "<", ">="}), Col(1), Col(2))
-RandAtom(k) == AtomOn(RandomElement({1, 1, 2, 3, 4, 5, 6, 7, 8, 9, 11, 12}), RandomElement({"cmp", "cmp", "in", "null", "colcol"}))
+\* list-element fields (columns 9, 10) are projected and compared but not used in predicates
+RandAtom(k) == AtomOn(RandomElement({1, 1, 2, 3, 4, 5, 6, 7, 8, 11, 12}), RandomElement({"cmp", "cmp", "in", "null", "colcol"}))
 Shape(sh, x, y) ==
   CASE sh = "atom" -> x
     [] sh = "and" -> Bin("and", x, y)
